@@ -101,6 +101,11 @@ def main(argv):
     with ctx.Pool(nproc, maxtasksperchild=8) as pool:
         for r in pool.imap_unordered(_worker, [(pid, it) for it in items]):
             results.append(r)
+            if os.environ.get('VERIF_FIRSTFAIL') and r.get('fails') and not r['item'].get('twin'):
+                # detection runs against seeded changes: one reproduced violation is enough
+                # (the remaining items are not explored; never used by the registered commands)
+                pool.terminate()
+                break
             if os.environ.get('VERIF_VERBOSE'):
                 print('item', json.dumps(r.get('item'), ensure_ascii=False)[:150],
                       {k: r.get(k) for k in ('paths', 'nontrivial', 'unknown', 'exhausted',
